@@ -44,6 +44,15 @@ pub(crate) fn drop_kb(input: &str) -> String {
     format!("{}~", filtered_parts.join("~"))
 }
 
+// Restored claims may nest at most as deep as serde_json itself accepts when parsing. Disclosures can
+// compound (each one is parsed on its own), so without a limit a presentation could build an
+// arbitrarily deep tree and exhaust the stack of the recursive walks below.
+const MAX_NESTING_DEPTH: usize = 128;
+
+fn nested_too_deeply() -> Error {
+    Error::SDJWTRejected("claims are nested too deeply".to_string())
+}
+
 pub(crate) fn restore_disclosures(
     claims: &mut Value,
     disclosures: &[String],
@@ -61,7 +70,7 @@ pub(crate) fn restore_disclosures(
         let mut remaining = Vec::new();
         let mut progress = false;
         for disclosure in pending {
-            if restore_disclosure(claims, &disclosure, String::new(), disclosure_paths)? {
+            if restore_disclosure(claims, &disclosure, String::new(), disclosure_paths, 0)? {
                 progress = true;
             } else {
                 remaining.push(disclosure);
@@ -83,14 +92,21 @@ pub(crate) fn restore_disclosures(
             return Err(duplicate_digest());
         }
     }
-    check_digests(claims, &mut digests)
+    check_digests(claims, &mut digests, 0)
 }
 
 fn duplicate_digest() -> Error {
     Error::SDJWTRejected("digest is embedded more than once".to_string())
 }
 
-fn check_digests(claims: &Value, digests: &mut HashSet<String>) -> Result<(), Error> {
+fn check_digests(
+    claims: &Value,
+    digests: &mut HashSet<String>,
+    depth: usize,
+) -> Result<(), Error> {
+    if depth > MAX_NESTING_DEPTH {
+        return Err(nested_too_deeply());
+    }
     match claims {
         Value::Object(map) => {
             if let Some(sd) = map.get("_sd") {
@@ -104,7 +120,7 @@ fn check_digests(claims: &Value, digests: &mut HashSet<String>) -> Result<(), Er
                 }
             }
             for value in map.values() {
-                check_digests(value, digests)?;
+                check_digests(value, digests, depth + 1)?;
             }
         }
         Value::Array(array) => {
@@ -121,7 +137,7 @@ fn check_digests(claims: &Value, digests: &mut HashSet<String>) -> Result<(), Er
                         }
                     }
                 }
-                check_digests(item, digests)?;
+                check_digests(item, digests, depth + 1)?;
             }
         }
         _ => {}
@@ -182,8 +198,13 @@ pub(crate) fn restore_disclosure(
     disclosure: &Disclosure,
     current_path: String,
     disclosure_paths: &mut Vec<DisclosurePath>,
+    depth: usize,
 ) -> Result<bool, Error> {
     let mut is_restored = false;
+
+    if depth > MAX_NESTING_DEPTH {
+        return Err(nested_too_deeply());
+    }
 
     match claims {
         Value::Object(map) => {
@@ -210,7 +231,7 @@ pub(crate) fn restore_disclosure(
 
             for (key, value) in map.iter_mut() {
                 let path = format_path(&current_path, key);
-                if restore_disclosure(value, disclosure, path, disclosure_paths)? {
+                if restore_disclosure(value, disclosure, path, disclosure_paths, depth + 1)? {
                     is_restored = true;
                 }
             }
@@ -238,7 +259,7 @@ pub(crate) fn restore_disclosure(
                         is_restored = true;
                     }
                 }
-                if restore_disclosure(item, disclosure, path, disclosure_paths)? {
+                if restore_disclosure(item, disclosure, path, disclosure_paths, depth + 1)? {
                     is_restored = true;
                 }
             }
